@@ -11,9 +11,14 @@ RULE = ("generated vCards (ASCII and non-ASCII FN/NICKNAME/NOTE/TITLE, several E
         "anyof/allof over 1-3 prop-filters, prop-filter test attribute, limits 0..n+1; judged by vf/cardoracle.py (RFC 6352 10.5); address-data must equal the GET body; any "
         "5xx is a violation; distinct = distinct (feature set, verdict) tuples")
 
-FNS = ["John Doe", "Jörg Müller", "JOHN SMITH", "émile zola", "Émile Durand", "日本 太郎", "Ann O'Neil", "doe", "Дмитрий Иванов", "Zoë"]
-NICKS = ["Johnny", "jö", "太郎", "JD", "Ann"]
-NOTES = ["likes lunch", "VIP customer", "ünïcode note", "call back", "Lunch buddy"]
+FNS = ["John Doe", "Jörg Müller", "JOHN SMITH", "émile zola", "Émile Durand", "日本 太郎", "Ann O'Neil", "doe", "Дмитрий Иванов", "Zoë", "Işıl Kaya"]
+NICKS = ["Johnny", "jö", "太郎", "JD", "Ann", "ſam"]
+NOTES = ["likes lunch", "VIP customer", "ünïcode note", "call back", "Lunch buddy", "Straße 5", "ﬁnance ofﬁce"]
+# values that are written with escapes in the card, and long enough to be folded
+NOTES_ESC = ["Meet at the corner, then left; ring twice", "first line\nsecond line of the note", "Prefers e-mail over the telephone, except on Fridays; see calendar", "back\\slash and, comma"]
+# characters outside ASCII whose upper-case form is made of ASCII letters: under i;ascii-casemap (and i;octet) they are
+# themselves and nothing else
+LOOKALIKES = {"ß": "ss", "ı": "i", "ſ": "s", "ﬁ": "fi"}
 EMAILS = ["john@example.com", "JOHN@EXAMPLE.COM", "jörg@exämple.de", "ann@work.example", "info@example.org"]
 TELS = ["+1 555 0100", "+31-20-1234567", "555"]
 
@@ -29,7 +34,15 @@ def gen_cards(rng, n):
         if rng.random() < 0.5:
             L.append("NICKNAME:" + rng.choice(NICKS))
         if rng.random() < 0.6:
-            L.append("NOTE:" + rng.choice(NOTES))
+            note = rng.choice(NOTES + NOTES_ESC)
+            line = "NOTE:" + gen.esc_text(note)
+            if len(line) > 24 and rng.random() < 0.7:
+                # a content line may be folded anywhere (RFC 2426 2.6 / RFC 6350 3.2), also in the middle of a word
+                # (not between a backslash and the character it escapes)
+                cut = [i for i in range(8, len(line) - 3) if line[i - 1] != "\\"]
+                p_ = rng.choice(cut)
+                line = line[:p_] + "\r\n " + line[p_:]
+            L.append(line)
         for _ in range(rng.choice([0, 1, 2, 2])):
             t = rng.choice(["INTERNET", "INTERNET,WORK", "INTERNET,HOME,PREF", "WORK", "HOME"])
             grp = "item%d." % rng.randint(1, 2) if rng.random() < 0.2 else ""
@@ -59,6 +72,11 @@ def derive_texts(rng, value):
     cands += [("ws-last-word-plus-space", words[-1] + " "), ("ws-space-plus-first-word", " " + words[0]), ("ws-only", " ")]
     if len(words) > 1:
         cands += [("ws-first-word-plus-space", words[0] + " "), ("ws-space-plus-last-word", " " + words[-1])]
+    for c, e in LOOKALIKES.items():
+        if c in v:
+            i = v.index(c)
+            cands += [("ascii-lookalike", e), ("ascii-lookalike", e.upper()), ("ascii-lookalike", v.replace(c, e)), ("ascii-lookalike", v.replace(c, e.upper())),
+                      ("ascii-lookalike", v[max(0, i - 1):i] + e + v[i + 1:i + 2])] * 2
     return cands
 
 
@@ -96,6 +114,8 @@ def gen_filter(rng, cards):
             text = "a"
         mt = rng.choice(["contains", "equals", "starts-with", "ends-with", None])
         col = rng.choice([None, "i;ascii-casemap", "i;unicode-casemap", "i;octet"])
+        if rel == "ascii-lookalike" and rng.random() < 0.6:
+            col = "i;ascii-casemap"
         neg = rng.random() < 0.2
         nonascii = not (text.isascii() and v.isascii())
         if rel == "whole-unicode-casechanged" and (text == swapcase_ascii(v)):
@@ -105,6 +125,8 @@ def gen_filter(rng, cards):
             feat += "/nonascii-case-differs"
         if rel.startswith("ws-"):
             feat += "/text-with-edge-whitespace"
+        if rel == "ascii-lookalike":
+            feat += "/ascii-text-for-a-non-ascii-lookalike"
         return {"name": spell, "text_matches": [{"text": text, "match_type": mt, "collation": col, "negate": neg}]}, feat
     if r < 0.05:
         return {"props": []}, "empty-filter"
@@ -278,6 +300,10 @@ def run_shard(args):
                     res.count("upload_refused")
                     continue
                 st, et, served, _ = w.fetch(colpath, name)
+                if b"\r\n " in (served or b""):
+                    res.count("cards_served_with_a_folded_line")
+                if any(e in (served or b"") for e in (b"\\,", b"\\;", b"\\n")) and b"NOTE:" in (served or b""):
+                    res.count("cards_served_with_an_escaped_character_in_a_value")
                 cards.append((name, served, icl.parse_vcard(served)))
             res.count("cards_uploaded", len(cards))
             for i in range(args["filters"]):
@@ -298,6 +324,8 @@ def run_shard(args):
                 res.count("feature:" + feat.split("/")[0])
                 if "text-with-edge-whitespace" in feat:
                     res.count("feature:edge-whitespace-text")
+                if "ascii-text-for-a-non-ascii-lookalike" in feat and "i;ascii-casemap" in feat:
+                    res.count("feature:ascii-casemap-lookalike")
                 if got is None:
                     cause = ""
                     import re
@@ -356,7 +384,8 @@ def check(tier, seed, t0):
     guards = [("queries", c.get("queries", 0), 3000 * k), ("(card, query) judgements", c.get("judgements", 0), 40000 * k), ("expected matches", c.get("expected_match", 0), 5000 * k),
               ("expected non-matches", c.get("expected_nomatch", 0), 5000 * k), ("address-data comparisons", c.get("address_data_compared", 0), 3000 * k), ("limited queries", c.get("limited_queries", 0), 300 * k),
               ("answers of concurrent clients sending different filters", c.get("concurrent_queries_judged", 0), 60 * (1 if not th else 6))]
-    for f in ("text-match", "presence", "is-not-defined", "param-presence", "param-is-not-defined", "param-text-match", "empty-filter", "edge-whitespace-text"):
+    guards += [("cards with a folded content line", c.get("cards_served_with_a_folded_line", 0), 20), ("cards with an escaped character in a value", c.get("cards_served_with_an_escaped_character_in_a_value", 0), 20)]
+    for f in ("text-match", "presence", "is-not-defined", "param-presence", "param-is-not-defined", "param-text-match", "empty-filter", "edge-whitespace-text", "ascii-casemap-lookalike"):
         guards.append(("feature " + f, c.get("feature:" + f, 0), 10))
     return common.finish(PROP, tier, seed, "exploration", merged, failures, RULE, t0, guards=guards,
                          assumptions=["vf/cardoracle.py implements RFC 6352 10.5 (self-tested)", "only unstructured text properties are used in text-match cases", "i;unicode-casemap is modelled by str.casefold() on cases where simple case mapping applies"])
